@@ -12,6 +12,7 @@ def run(rep, prog, tier):
     rep.rule('R07.keys', 'per kind: value keys read by the translator are written by the constructor, and every stored constructor parameter reaches the branch')
     rep.rule('R07.identity', 'every returning path of every translator yields Branch(c.nodes[0], c.nodes[1], element(name=c.id))')
     rep.rule('R07.immittance/phasor/gate', 'normal form of the translated element equals the per-kind formula of the property statement; gated iff the kind carries a frequency')
+    rep.rule('R07.domain', 'boundary values are admitted: every sign-constrained constructor parameter accepts 0')
     rep.rule('R07.traversal', 'transform_circuit is one comprehension over circuit.components filtered only by table membership, reference node = circuit.ground_node; ground selection rule of Circuit.__post_init__')
     rep.assume('element values are finite (np.isfinite folds to True)')
     rep.assume('w_resolution >= 0')
@@ -23,8 +24,26 @@ def run(rep, prog, tier):
         written = kinds.get(kind, {}).get('written', {})
         T.check_kind(rep, prog, kind, ent[0], ent[1], written, pid_rule='R07')
     traversal(rep, prog)
+    domain(rep, prog, kinds)
     rep.extra['exhaustive'] = True
     rep.extra['kinds'] = sorted(kinds)
+
+
+def domain(rep, prog, kinds):
+    """admissible boundary values are not rejected: a constrained parameter may be 0 (w = 0 is the dc case, R = 0 an ideal source)"""
+    from .c19 import CONSTRAINED
+    m = prog.mod(T.CP)
+    for kind, info in sorted(kinds.items()):
+        fn = info['node']
+        ps = [a.arg for a in fn.args.args + fn.args.kwonlyargs]
+        todo = [p for p in ps if p in CONSTRAINED]
+        if not todo: continue
+        ev = Evaluator(prog)
+        ev.call_fn(fn, m, [], {p: A(p) for p in ps}, {'__parent__': None}, 1)
+        for p in todo:
+            sg = ev.sign(A(p))
+            rep.ob('R07.domain', f'{kind}.{p}=0', '=0' in sg, f'{p} = 0 is accepted' if '=0' in sg else
+                   f'components.{info["fn"]} rejects {p} = 0 (admissible: w = 0 is the dc case, zero internal resistance an ideal source)', info['site'])
 
 
 def traversal(rep, prog):
@@ -57,6 +76,17 @@ def traversal(rep, prog):
         okf = len(filt) <= 1 and all(isinstance(x, Opq) and x.k[0] == 'in' and tkey(x.k[1]) == tkey(ev.getattr(elem, 'type', f.mod, 0)) for x in filt)
         rep.ob('R07.traversal', 'transform_circuit:filter', True if okf else False,
                'only filter is membership of c.type in the table' if okf else f'unexpected filters {filt!r:.200}: components can be omitted', site)
+    # transform(): one network per listed frequency, analysed at that frequency with the given resolution
+    ft = prog.func('Circuit.circuit', 'transform')
+    evt = Evaluator(prog); evt.opaque_fns |= {('Circuit.circuit', 'transform_circuit')}
+    tt = call(evt, ft, [A('circuit'), A('ws'), A('wres')])
+    okt = None
+    if isinstance(tt, Comp) and len(tt.gens) == 1 and not tt.gens[0][1]:
+        wk = evt.elem_of(tt.gens[0][0], 0)
+        at = tt.elt.as_atom() if isinstance(tt.elt, Poly) else None
+        okt = bool(term_equal(tt.gens[0][0], A('ws')) and at and at[0] == 'call' and at[1] == ('fn', 'transform_circuit') and list(at[2]) == [tkey(A('circuit')), tkey(wk), tkey(A('wres'))] and not at[3])
+        if not okt and not has_opaque(tt): okt = False
+    rep.ob('R07.traversal', 'transform:per-frequency', okt, f'transform = {tt!r:.200}', ft.site)
     gz = term.f.get('node_zero_label')
     okz = term_equal(gz, ev.getattr(A('circuit'), 'ground_node', f.mod, 0))
     rep.ob('R07.traversal', 'transform_circuit:reference', True if okz else (None if has_opaque(gz) else False),
